@@ -109,6 +109,13 @@ class Extractor:
             return False
         return True
 
+    @staticmethod
+    def _discarded_helper(s_):
+        x = s_
+        while x.get("k") in ("try", "semi"):
+            x = x["e"]
+        return x.get("k") == "blockexpr" and "inl_id" in x and not any(y.get("k") in ("assign", "assignop") for y in walk(x))
+
     def ev(self, n, env, depth=0):
         if depth > 30:
             raise Opaque(n, "too deep")
@@ -136,6 +143,8 @@ class Extractor:
             raise Opaque(n, "free local `%s`" % n["name"])
         if k == "lit":
             return ("lit", n.get("v"))
+        if k == "def" and resolve(n).get("k") == "lit":
+            return ("lit", resolve(n).get("v"))
         if k == "tuple":
             return ("tuple",) + tuple(self.ev(x, env, depth + 1) for x in n["es"])
         if k == "ctor" and callee(n).endswith(("Result::Ok", "Option::Some")):
@@ -186,6 +195,10 @@ class Extractor:
                     continue  # a dispatch whose arms only perform checks
                 elif s_.get("k") == "if" and all(self._arm_checks_only({"body": b_}) for b_ in [s_["then"]] + ([s_["else"]] if "else" in s_ else [])):
                     continue  # a conditional block of checks
+                elif s_.get("k") in ("for", "while", "loop") and not any(y.get("k") in ("assign", "assignop") for y in walk(s_)):
+                    continue  # a loop whose value is discarded and that assigns nothing cannot change the term built from the locals
+                elif self._discarded_helper(s_):
+                    continue  # an inlined helper called for its checks only: its value is discarded and it assigns nothing
                 else:
                     raise Opaque(s_, "statement `%s`" % show(s_)[:60])
             if "tail" in n["b"]:
